@@ -89,47 +89,90 @@ class Sim:
 
 
 class Patched:
-    """context manager substituting time/select/getpreferredencoding in curtsies.input"""
+    """context manager substituting the clock, select and getpreferredencoding that curtsies.input uses.
+
+    The substitution adapts to how the module spells its imports (`import time` / `from time import time, monotonic`; the same for
+    select and os), and every clock the time module offers reads the same virtual time - so that a refactoring of the imports, or a move
+    from time.time() to time.monotonic(), does not turn into a false alarm of the harness."""
 
     def __init__(self, sim, read_hook=None):
         self.sim = sim
         self.read_hook = read_hook  # read_hook(fd, nbytes_returned): observes every os.read made by curtsies.input
 
     def __enter__(self):
+        import time as real_time
+
         import curtsies.input as ci
 
         self.ci = ci
-        self.saved = (ci.time, ci.select, ci.getpreferredencoding, ci.os)
+        self.saved = {}
         hook = self.read_hook
+        sim = self.sim
+
+        def hooked_read(fd, n):
+            data = os.read(fd, n)
+            if hook is not None:
+                hook(fd, len(data))
+            return data
 
         class _OS:
             def __getattr__(self, name):
                 return getattr(os, name)
 
-            @staticmethod
-            def read(fd, n):
-                data = os.read(fd, n)
-                if hook is not None:
-                    hook(fd, len(data))
-                return data
+            read = staticmethod(hooked_read)
 
-        if hook is not None:
-            ci.os = _OS()
+        def virtual_sleep(dt):
+            sim.now += max(0, dt)
 
         class _T:
-            time = staticmethod(self.sim.time)
+            time = monotonic = perf_counter = staticmethod(sim.time)
+            time_ns = monotonic_ns = perf_counter_ns = staticmethod(lambda: int(sim.time() * 1e9))
+            sleep = staticmethod(virtual_sleep)
+
+            def __getattr__(self, name):
+                return getattr(real_time, name)
 
         class _S:
-            select = staticmethod(self.sim.select)
+            select = staticmethod(sim.select)
             error = real_select.error
 
-        ci.time = _T
-        ci.select = _S
-        ci.getpreferredencoding = self.sim.getpreferredencoding
+            def __getattr__(self, name):
+                return getattr(real_select, name)
+
+        def put(name, val):
+            self.saved[name] = vars(ci)[name]
+            setattr(ci, name, val)
+
+        clocks = (real_time.time, real_time.monotonic, real_time.perf_counter)
+        for name, val in list(vars(ci).items()):
+            if val is real_time:
+                put(name, _T())
+            elif any(val is c for c in clocks):
+                put(name, sim.time)
+            elif val is real_time.sleep:
+                put(name, virtual_sleep)
+            elif val is real_select:
+                put(name, _S())
+            elif val is real_select.select:
+                put(name, sim.select)
+            elif val is os and hook is not None:
+                put(name, _OS())
+            elif val is os.read and hook is not None:
+                put(name, hooked_read)
+        self.had_gpe = "getpreferredencoding" in vars(ci)
+        if self.had_gpe:
+            self.saved["getpreferredencoding"] = ci.getpreferredencoding
+        ci.getpreferredencoding = sim.getpreferredencoding
         return self.sim
 
     def __exit__(self, *a):
-        self.ci.time, self.ci.select, self.ci.getpreferredencoding, self.ci.os = self.saved
+        for name, val in self.saved.items():
+            setattr(self.ci, name, val)
+        if not self.had_gpe:
+            try:
+                delattr(self.ci, "getpreferredencoding")
+            except AttributeError:
+                pass
 
 
 class LineInjector:
